@@ -484,7 +484,7 @@ def run(run):
         if not run.mine(i):
             continue
         shape = rng.choice(('single', 'pair', 'pair', 'prefix', 'all',
-                            'triple'))
+                            'triple', 'with-prerelease'))
         if shape == 'single':
             allowed = [rng.choice(sup)]
         elif shape == 'pair':
@@ -496,6 +496,15 @@ def run(run):
                     allowed[1] = 757
         elif shape == 'triple':
             allowed = rng.sample(sup, 3)
+        elif shape == 'with-prerelease':
+            # pre-release numbers carry bit 30: numerically the largest, in
+            # publication order in the middle of the list
+            pres = [p for p in sup if p & (1 << 30)]
+            later = [p for p in sup if not p & (1 << 30) and
+                     order.index(p) > order.index(pres[0])]
+            allowed = [rng.choice(pres), rng.choice(later)] + \
+                ([rng.choice(sup)] if rng.random() < 0.5 else [])
+            run.count('allowed_sets_with_a_prerelease')
         elif shape == 'prefix':
             allowed = sup[:rng.randrange(2, len(sup))]
         else:
@@ -528,8 +537,13 @@ def run(run):
                                         'Via %s {0} {name} %(x)d'))
             beh = ('reply', {'version': v})
         elif bk == 'mismatch-known':
+            # (protocol 0 is a known version like any other: 13w41a)
             beh = ('reply', {'version': {'name': 'old', 'protocol':
-                                         rng.choice(known_unsup)}})
+                                         rng.choice(known_unsup + [0, 0, 1]
+                                                    if 0 in known_unsup
+                                                    else known_unsup)}})
+            if rng.random() < 0.3:
+                del beh[1]['version']['name']
         elif bk == 'mismatch-unknown':
             v = {'protocol': rng.choice(
                 (-1, 99999, 2 ** 31, 2 ** 31 - 1, 758, 46, 1 << 30))}
